@@ -24,12 +24,36 @@ def encOutcomeMap (o : Outcome (Array Nat)) : String :=
   | .err => "0"
   | .panic => "PANIC"
 
-/-- labels of 1..n by least member of the class -/
-def canonLabels (n : Nat) (p : Part) : List Nat :=
-  (List.range n).map fun d0 =>
-    match (List.range d0).find? (fun e0 => p (e0 + 1) == p (d0 + 1)) with
+/-- `find(&d)` for the listed keys, in order, on the union–find (state threaded through the
+    `UnsafeCell`) -/
+def findAll : UF → List Nat → Option (UF × List Nat)
+  | g, [] => some (g, [])
+  | g, d :: ds =>
+    match ufFind g d with
+    | .ok (g1, r) => (findAll g1 ds).map fun (g2, rs) => (g2, r :: rs)
+    | _ => none
+
+/-- labels of 1..n by first member of the class, from the representatives -/
+def firstLabels (reps : List Nat) : List Nat :=
+  let a := reps.toArray
+  (List.range a.size).map fun d0 =>
+    match (List.range d0).find? (fun e0 => a.getD e0 0 == a.getD d0 0) with
     | some e0 => e0 + 1
     | none => d0 + 1
+
+/-- what the harness reads off a `Partition<usize>` through its public API, in the same order of
+    calls: `find` of 1..n, of n + 1 and of 0, then `classes(&[1..=n])` -/
+def rawPartition (n : Nat) (g : UF) : Option (List Nat × List Nat × List (List Nat)) :=
+  let elms := (List.range n).map (· + 1)
+  match findAll g elms with
+  | some (g1, reps) =>
+    match findAll g1 [n + 1, 0] with
+    | some (g2, probes) =>
+      match DSymVerif.Part.classes DSymVerif.Part.genImpl g2 elms with
+      | .ok (_, cls) => some (reps, probes, cls)
+      | _ => none
+    | none => none
+  | none => none
 
 def b2n (b : Bool) : Nat := if b then 1 else 0
 
@@ -62,7 +86,7 @@ def handler : Handler := fun op inp out =>
       let model : String := match s.toSym with
         | .ok y =>
           if mPanics y then "PANIC" else
-          (match isMinimal (ofSym y), minimalImage y with
+          (match isMinimalUF (ofSym y), minimalImage y with
            | .ok fl, .ok r => s!"{b2n fl} {encSym r}"
            | _, _ => "PANIC")
         | _ => "PANIC"
@@ -74,7 +98,7 @@ def handler : Handler := fun op inp out =>
     | none => bad
     | some (kind, s) =>
       let model : String := match modelMV kind s with
-        | some mv => (match isMinimal mv with | .ok fl => toString (b2n fl) | _ => "PANIC")
+        | some mv => (match isMinimalUF mv with | .ok fl => toString (b2n fl) | _ => "PANIC")
         | none => "PANIC"
       let a := specS s
       match out.toList.map String.toNat? with
@@ -164,24 +188,31 @@ def handler : Handler := fun op inp out =>
     | some (kind, s, pairs) =>
       let model : String := match modelMV kind s with
         | some mv =>
-          let r := pairs.foldl (fun (acc : Option (Part × List Nat)) (de : Nat × Nat) =>
+          let r := pairs.foldl (fun (acc : Option (UF × List Nat)) (de : Nat × Nat) =>
             match acc with
             | none => none
             | some (p, flags) =>
-              match fold mv p de.1 de.2 with
+              match foldUF mv p de.1 de.2 with
               | .ok q => some (q, flags ++ [1])
               | .err => some (p, flags ++ [0])
-              | .panic => none) (some (Part.new, []))
+              | .panic => none) (some (UF.new, []))
           (match r with
-           | some (p, flags) => natsToString (flags ++ canonLabels s.size p)
+           | some (p, flags) =>
+             (match rawPartition s.size p with
+              | some (reps, probes, cls) =>
+                joinToks [natsToString (flags ++ firstLabels reps ++ reps ++ probes), encNatss cls]
+              | none => "PANIC")
            | none => "PANIC")
         | none => "PANIC"
       let a := specS s
-      let xs := out.toList.map String.toNat?
-      if xs.any (·.isNone) || xs.length != pairs.length + s.size then (model, fail "no-fold-answers-returned") else
-      let xs := xs.map (·.getD 0)
-      let flags := xs.take pairs.length
-      let labels := (0 :: xs.drop pairs.length).toArray
+      -- flags, first-member labels | representatives, two probes, class listing (the raw partition
+      -- is compared with the model exactly; the Spec reads the flags and the labels)
+      match run (do let fl ← P.rep pairs.length P.nat; let lb ← P.rep s.size P.nat
+                    let _ ← P.rep (s.size + 2) P.nat; let _ ← P.natss
+                    let e ← P.atEnd; if e then pure (fl, lb) else failure) out with
+      | none => (model, fail "no-fold-answers-returned")
+      | some (flags, lbs) =>
+      let labels := (0 :: lbs).toArray
       -- oracle: successively, the congruence generated by the partition so far and the pair,
       -- accepted iff it is degree-respecting
       let (expLabels, expFlags) := pairs.foldl (fun (acc : Array Nat × List Nat) (de : Nat × Nat) =>
